@@ -77,6 +77,19 @@ pub fn run(rep: &mut Report, thorough: bool) {
                 f.tcp(0xffff_ffff, 0, fl[d[1] as usize], b"")
             });
         }
+        // every destination MAC the link layer accepts: the SYN policy does not depend on it
+        {
+            let auth: Vec<Mac> = crate::model::authorised_macs(cfg).into_iter().collect();
+            let mut auth = auth;
+            auth.sort();
+            let n = auth.len() as u64;
+            sweep_frames(rep, cfg, &format!("syn-dst-macs-{}", tag), "every authorised destination MAC (own, broadcast, all-nodes, multicast MACs derived from the handled addresses) x {v4,v6} x flags {SYN, SYN|ECE|PSH, SYN|ACK, SYN|RST}", n * 2 * 4, |i| {
+                let d = unrank(i, &[n, 2, 4]);
+                let mut f = flow(d[1] == 1, 40000, 80);
+                f.smac = auth[d[0] as usize];
+                f.tcp(0xffff_fff0, 0, [F_SYN, F_SYN | F_ECE | F_PSH, F_SYN | F_ACK, F_SYN | F_RST][d[2] as usize], b"")
+            });
+        }
         // SYNs behind IPv4 options (IHL 6..15): the policy does not depend on the IP header length
         {
             let dims = [10u64, 512, 2];
